@@ -13,6 +13,7 @@ import multiprocessing as mp
 import os
 
 import thdmrun as T
+from core import InfraError
 
 META = dict(
     level="exploration",
@@ -30,12 +31,15 @@ PAIRS = [(a, b) for a in MVALS for b in MVALS if a <= b]
 TBS = [0.05, 0.5, 1.0, 3.0, 5.0, 50.0, 200.0]
 LAMS = [-2.0, -0.5, 0.0, 0.5, 2.0]
 
-CTX_M = ["mm", "mA", "mHp", "sba", "tb", "l6", "l7", "m122", "ckm"]
-CTX_G = ["l1", "l2", "l3", "l4", "l5", "l6", "l7", "tb", "m122", "ckm"]
+CTX_M = ["mm", "mA", "mHp", "sba", "tb", "l6", "l7", "m122", "ckm", "sm"]
+CTX_G = ["l1", "l2", "l3", "l4", "l5", "l6", "l7", "tb", "m122", "ckm", "sm"]
+# SM input sets: gm2calc::SM defaults / a complete alternate set (MW, MZ, alpha_em, alpha_s, nine fermion masses, m_hSM)
+SM_SETS = {"default": (None, None), "alt": (T.SM_ALT, 150.0)}
 ALPHA = {
     "mm": PAIRS, "mA": [10.0, 300.0, 1e4], "mHp": [10.0, 300.0, 1e4],
     "sba": [-1.0, -0.9, -0.3, 0.0, 0.3, 0.7, 0.995, 1.0], "tb": TBS,
     "l6": [-3.0, 0.0, 0.2, 3.0], "l7": [-3.0, 0.0, 0.2, 3.0], "m122": [-1e4, 0.0, 4e4], "ckm": [0, 1, 2],
+    "sm": ["default", "alt"],
     "zu": ZETAS, "zd": ZETAS, "zl": ZETAS,
     "Du": T.MAT_NAMES, "Dd": T.MAT_NAMES, "Dl": T.MAT_NAMES,
     "Pu": T.MAT_NAMES, "Pd": T.MAT_NAMES, "Pl": T.MAT_NAMES,
@@ -59,6 +63,11 @@ BASES_G = [
          zu=1.0, zd=-100.0, zl=100.0, Du="dense", Dd="e12", Dl="m22", Pu="m22", Pd="dense", Pl="e31"),
 ]
 
+for _i, _b in enumerate(BASES_M):
+    _b["sm"] = "alt" if _i == 1 else "default"
+for _i, _b in enumerate(BASES_G):
+    _b["sm"] = "alt" if _i == 1 else "default"
+
 # Table 1 of arXiv:1607.06292: (zeta_u, zeta_d, zeta_l) in units (cot beta -> +1, -tan beta -> -1)
 ZETA_TABLE = {1: (+1, +1, +1), 2: (+1, -1, -1), 3: (+1, +1, -1), 4: (+1, -1, +1)}
 
@@ -72,7 +81,8 @@ def mk(basis, a, ytype, run, z=None, D=None, P=None):
         p = [a["mm"][0], a["mm"][1], a["mA"], a["mHp"], a["sba"], a["l6"], a["l7"], a["tb"], a["m122"]]
     else:
         p = [a["l%d" % i] for i in range(1, 8)] + [a["tb"], a["m122"]]
-    return T.case(basis, p, ytype=ytype, run=run, ckm=a["ckm"],
+    smo, mhsm = SM_SETS[a.get("sm", "default")]
+    return T.case(basis, p, ytype=ytype, run=run, ckm=a["ckm"], sm=smo, mhsm=mhsm,
                   z=z if z is not None else (a["zu"], a["zd"], a["zl"]),
                   D=D if D is not None else (a["Du"], a["Dd"], a["Dl"]),
                   P=P if P is not None else (a["Pu"], a["Pd"], a["Pl"]))
@@ -89,9 +99,9 @@ def matlist(m):
 def brief(c):
     def mname(m):
         return m if (m is None or isinstance(m, str)) else "[..]"
-    return "%s p=%s type=%s run=%d ckm=%d zeta=%s Delta=%s Pi=%s" % (
+    return "%s p=%s type=%s run=%d ckm=%d zeta=%s Delta=%s Pi=%s SM=%s" % (
         c["basis"], ["%g" % x for x in c["p"]], T.TYPES[c["ytype"]], c["run"], c["ckm"], c["z"],
-        [mname(m) for m in c["D"]], [mname(m) for m in c["P"]])
+        [mname(m) for m in c["D"]], [mname(m) for m in c["P"]], "alt" if c.get("sm") else "default")
 
 
 # ---- oracle for one pair -----------------------------------------------------------------
@@ -99,14 +109,14 @@ def tsum(Tb):
     return sum(abs(x) for x in Tb[0:5]), sum(abs(x) for x in Tb[5:10]), sum(abs(x) for x in Tb[10:17])
 
 
-def yukawa_bounds(c, S, sm):
+def yukawa_bounds(c, S):
     """per-entry 'sum of |terms|' of the twelve Yukawa matrices from the inputs of model c:
     rho_f = sqrt2 M_f zeta_f/v + Delta_f   resp.   Pi_f/cos(beta) - sqrt2 M_f tan(beta)/v"""
     tb, v = S[T.TB], S[T.V]
     cb = 1.0 / math.sqrt(1.0 + tb * tb)
     sba, cba = abs(S[T.SBA]), abs(S[T.CBA])
     zeta = S[T.ZETA]
-    masses = (sm["mu"], sm["md"], sm["ml"])
+    masses = (S[T.SM_MU], S[T.SM_MD], S[T.SM_ML])
     R = []
     for k in range(3):
         m = masses[k]
@@ -118,7 +128,7 @@ def yukawa_bounds(c, S, sm):
             Dm = matlist(c["D"][k])
             R.append([[abs(Dm[3 * i + j]) + (math.sqrt(2) * m[i] * abs(zeta[k]) / v if i == j else 0.0)
                        for j in range(3)] for i in range(3)])
-    V = [[abs(x) for x in row] for row in sm["ckm%d" % c["ckm"]]]
+    V = [[abs(x) for x in row] for row in T.cmat(S[T.SM_CKM])]
     out = {}
     for k, f in enumerate("udl"):
         m, r = masses[k], R[k]
@@ -133,7 +143,7 @@ def yukawa_bounds(c, S, sm):
     return out
 
 
-def compare_pair(kind, cA, cB, rA, rB, sm, comps, stats):
+def compare_pair(kind, cA, cB, rA, rB, comps, stats):
     """returns list of (key, what).  comps: a_mu components to compare (indices into the A block)"""
     fails = []
     tag = kind
@@ -147,17 +157,17 @@ def compare_pair(kind, cA, cB, rA, rB, sm, comps, stats):
         tol = TOL * scale[k]
         ok = err <= tol
         if ok and tag == kind:
-            nm = "worst_" + names[k] + ("(mHp<mt)" if k in (1, 2) and rA.S[T.MHM1] < sm["mu"][2] else "")
+            nm = "worst_" + names[k] + ("(mHp<mt)" if k in (1, 2) and rA.S[T.MHM1] < rA.S[T.SM_MU][2] else "")
             stats[nm] = max(stats.get(nm, 0.0), err / tol if tol > 0 else 0.0)
         if not ok:
             key = "%s:%s" % (tag, names[k])
-            if k in (1, 2) and tag == kind and rA.S[T.MHM1] < sm["mu"][2] and err <= 1e-6 * scale[k]:
+            if k in (1, 2) and tag == kind and rA.S[T.MHM1] < rA.S[T.SM_MU][2] and err <= 1e-6 * scale[k]:
                 # rounding noise of the top-loop charged-Higgs Barr-Zee functions below the top mass (see findings)
                 key += ":mHp<mt:noise<1e-6"
             fails.append((key,
                           "a_mu %s: %s gives %r, %s gives %r (|diff| %.3g > 1e-10 x sum|terms| = %.3g)"
                           % (names[k], T.TYPES[cA["ytype"]], a, T.TYPES[cB["ytype"]], b, err, tol)))
-    bA, bB = yukawa_bounds(cA, rA.S, sm), yukawa_bounds(cB, rB.S, sm)
+    bA, bB = yukawa_bounds(cA, rA.S), yukawa_bounds(cB, rB.S)
     for n, name in enumerate(T.YNAMES):
         ya, yb = rA.Y[18 * n:18 * n + 18], rB.Y[18 * n:18 * n + 18]
         worst = None
@@ -181,12 +191,19 @@ def compare_pair(kind, cA, cB, rA, rB, sm, comps, stats):
 
 def eval_pairs(arg):
     """jobs: list of (kind, caseA, caseB); kind 'a' or 'b'"""
-    jobs, sm = arg
+    jobs, history, sminfo = arg
+    jobs = [expand(jb, sminfo) for jb in jobs]
     cases = []
     for kind, cA, cB in jobs:
         cases += [cA, cB]
     res = T.run_cases(cases, "SATY")
-    out = dict(n=len(jobs), thrown=0, massless=0, fails=[], stats={}, keys=set(), evals=len(cases))
+    out = dict(n=len(jobs), thrown=0, massless=0, fails=[], stats={}, keys=set(), evals=len(cases) * (2 if history else 1),
+               smsets=len(set(bool(c_.get("sm")) for c_ in cases)))
+    if history and len(cases) > 1:
+        for i, what in T.history_mismatches(cases, "SATY", res):
+            other = next((c_ for c_ in cases if c_.get("sm") != cases[i].get("sm")), cases[0 if i else -1])
+            out["fails"].append(("history-dependence", "result depends on what was constructed before in the same process: %s; %s" % (what, brief(cases[i])),
+                                 ("h", cases[i], other)))
     for q, (kind, cA, cB) in enumerate(jobs):
         rA, rB = res[2 * q], res[2 * q + 1]
         if rA.exc or rB.exc:
@@ -200,22 +217,28 @@ def eval_pairs(arg):
             out["massless"] += 1      # (nearly) massless Higgs state: a_mu itself is not finite
             continue
         comps = (0, 1, 2, 3) if kind == "a" else (0, 2)
-        fl = compare_pair(kind, cA, cB, rA, rB, sm, comps, out["stats"])
+        fl = compare_pair(kind, cA, cB, rA, rB, comps, out["stats"])
         for key, what in fl:
             out["fails"].append((key, what, (kind, cA, cB)))
         S = rA.S
-        out["keys"].add((kind, cA["basis"], cA["ytype"], cA["run"], cA["ckm"], (S[T.TB] > 1) - (S[T.TB] < 1),
+        out["keys"].add((kind, cA["basis"], cA["ytype"], cA["run"], cA["ckm"], bool(cA.get("sm")), (S[T.TB] > 1) - (S[T.TB] < 1),
                          (S[T.SBA] > 0) - (S[T.SBA] < 0), tuple((z > 0) - (z < 0) for z in cB["z"]) if kind == "b" else 0))
     return out
 
 
-def eval_groups(groups):
+def eval_groups(arg):
     """(c): groups: list of (label, [cases]); all results of a group must be bitwise identical to the first"""
+    groups, history = arg
     cases = []
     for label, cs in groups:
         cases += cs
     res = T.run_cases(cases, "SAY")
-    out = dict(n=0, thrown=0, fails=[], keys=set(), evals=len(cases))
+    out = dict(n=0, thrown=0, fails=[], keys=set(), evals=len(cases) * (2 if history else 1))
+    if history and len(cases) > 1:
+        for i, what in T.history_mismatches(cases, "SAY", res):
+            other = next((c_ for c_ in cases if c_.get("sm") != cases[i].get("sm")), cases[0 if i else -1])
+            out["fails"].append(("history-dependence", "result depends on what was constructed before in the same process: %s; %s" % (what, brief(cases[i])),
+                                 ("h", cases[i], other)))
     k = 0
     for label, cs in groups:
         rs = res[k:k + len(cs)]
@@ -243,25 +266,46 @@ def eval_groups(groups):
 
 
 # ---- lattices ------------------------------------------------------------------------------
+def _dims(kind, basis):
+    ctx = CTX_M if basis == "M" else CTX_G
+    return ctx + (["Du", "Dd", "Dl"] if kind == "a" else ["zu", "zd", "zl", "Du", "Dd", "Dl"])
+
+
+def expand(job, sminfo):
+    """compact job -> (kind, caseA, caseB).  compact: ('a', basis, values, type, run) / ('b', basis, values)"""
+    if isinstance(job[1], dict):
+        return job
+    kind, basis, vals = job[0], job[1], job[2]
+    base = (BASES_M if basis == "M" else BASES_G)[0]
+    a = dict(base)
+    a.update(zip(_dims(kind, basis), vals))
+    zero = ("0", "0", "0")
+    if kind == "a":
+        t, run = job[3], job[4]
+        return ("a", mk(basis, a, t, run, z=(0.0, 0.0, 0.0), P=zero), mk(basis, a, 5, run, z=table_zeta(t, a["tb"]), P=zero))
+    cA = mk(basis, a, 5, 0, P=zero)
+    return ("b", cA, general_from_aligned(cA, sminfo))
+
+
 def pairs_a(d):
+    """compact jobs (expanded in the workers: the thorough lattice has ~1e6 pairs)"""
     seen = set()
-    for basis, ctx, alpha, bases in (("M", CTX_M, ALPHA, BASES_M), ("G", CTX_G, ALPHA_G, BASES_G)):
-        dims = ctx + ["Du", "Dd", "Dl"]
+    for basis, alpha, bases in (("M", ALPHA, BASES_M), ("G", ALPHA_G, BASES_G)):
+        dims = _dims("a", basis)
         for b in bases:
             for a, combo in T.devprod(dims, b, alpha, d):
+                vals = tuple(a[k] for k in dims)
+                h = hash((basis, vals))
+                if h in seen:
+                    continue
+                seen.add(h)
                 for t in (1, 2, 3, 4):
                     for run in (0, 1):
-                        zero = ("0", "0", "0")
-                        cA = mk(basis, a, t, run, z=(0.0, 0.0, 0.0), P=zero)
-                        cB = mk(basis, a, 5, run, z=table_zeta(t, a["tb"]), P=zero)
-                        k = json.dumps(cA, sort_keys=True)
-                        if k in seen:
-                            continue
-                        seen.add(k)
-                        yield ("a", cA, cB)
+                        yield ("a", basis, vals, t, run)
 
 
-def general_from_aligned(cA, sm):
+def general_from_aligned(cA, sminfo):
+    sm = sminfo["alt" if cA.get("sm") else "default"]
     tb = cA["p"][7]
     P = [T.pi_from_aligned(cA["z"][k], matlist(cA["D"][k]), (sm["mu"], sm["md"], sm["ml"])[k], tb, sm["v"]) for k in range(3)]
     cB = dict(cA)
@@ -270,19 +314,20 @@ def general_from_aligned(cA, sm):
     return cB
 
 
-def pairs_b(d, sm):
+def pairs_b(d):
     seen = set()
-    for basis, ctx, alpha, bases in (("M", CTX_M, ALPHA, BASES_M), ("G", CTX_G, ALPHA_G, BASES_G)):
-        dims = ctx + ["zu", "zd", "zl", "Du", "Dd", "Dl"]
+    for basis, alpha, bases in (("M", ALPHA, BASES_M), ("G", ALPHA_G, BASES_G)):
+        dims = _dims("b", basis)
         for b in bases:
             for a, combo in T.devprod(dims, b, alpha, d):
-                cA = mk(basis, a, 5, 0, P=("0", "0", "0"))
-                k = json.dumps(cA, sort_keys=True)
-                if k in seen:
+                vals = tuple(a[k] for k in dims)
+                h = hash((basis, vals))
+                if h in seen:
                     continue
-                seen.add(k)
-                yield ("b", cA, general_from_aligned(cA, sm))
+                seen.add(h)
+                yield ("b", basis, vals)
     # full product zeta^3 x tan(beta) x CKM at the first base point (Delta_f dense)
+    dims = _dims("b", "M")
     b = dict(BASES_M[0])
     b.update(Du="dense", Dd="m22", Dl="e12")
     for zu in ZETAS:
@@ -292,12 +337,12 @@ def pairs_b(d, sm):
                     for ckm in (0, 1, 2):
                         a = dict(b)
                         a.update(zu=zu, zd=zd, zl=zl, tb=tb, ckm=ckm)
-                        cA = mk("M", a, 5, 0, P=("0", "0", "0"))
-                        k = json.dumps(cA, sort_keys=True)
-                        if k in seen:
+                        vals = tuple(a[k] for k in dims)
+                        h = hash(("M", vals))
+                        if h in seen:
                             continue
-                        seen.add(k)
-                        yield ("b", cA, general_from_aligned(cA, sm))
+                        seen.add(h)
+                        yield ("b", "M", vals)
 
 
 IGNORED = {1: ["zu", "zd", "zl", "Pu", "Pd", "Pl"], 2: ["zu", "zd", "zl", "Pu", "Pd", "Pl"],
@@ -333,12 +378,14 @@ def label_of(t, ref, c):
 
 def run(ctx):
     T.exe()
-    sm = T.sm_inputs(1)
-    for k in (0, 1, 2):
-        sm["ckm%d" % k] = T.sm_inputs(k)["ckm"]
+    sm = {"default": T.sm_inputs(1), "alt": T.sm_inputs(1, T.SM_ALT)}
+    for name_, ref_ in (("mw", 80.4335), ("mz", 91.05)):
+        if sm["alt"][name_] != ref_ or sm["default"][name_] == ref_:
+            raise InfraError("harness does not apply the SM override %s" % name_)
     da, db, dc = (2, 2, 1) if ctx.quick else (3, 3, 2)
     tot = dict(pairs_a=0, pairs_b=0, cases_c=0, thrown=0, evals=0, massless=0)
     stats = {}
+    min_sm = [2]
     nproc = min(16, os.cpu_count() or 4)
 
     def absorb(o, what):
@@ -350,12 +397,15 @@ def run(ctx):
             ctx.fail(key, msg, {"kind": data[0], "A": data[1], "B": data[2]})
 
     with mp.Pool(nproc) as pool:
-        for name, gen in (("a", pairs_a(da)), ("b", pairs_b(db, sm))):
+        for name, gen in (("a", pairs_a(da)), ("b", pairs_b(db))):
             jobs = list(gen)
             tot["pairs_" + name] = len(jobs)
-            for kind, cA, cB in jobs[:2] + jobs[-1:]:
+            for kind, cA, cB in [expand(jb, sm) for jb in jobs[:2] + jobs[-1:]]:
                 ctx.sample("(%s) %s  <->  %s" % (kind, brief(cA), brief(cB)))
-            for o in pool.imap(eval_pairs, [(ch, sm) for ch in T.chunks(jobs, 150)]):
+            # strided chunks: every harness process mixes both SM input sets; every 4th process is also
+            # run in reversed order and compared bitwise (no dependence on what was constructed before)
+            for o in pool.imap(eval_pairs, [(ch, q % 4 == 0, sm) for q, ch in enumerate(T.strided_chunks(jobs, 150))]):
+                min_sm[0] = min(min_sm[0], o["smsets"])
                 absorb(o, name)
                 tot["massless"] += o["massless"]
                 for k, v in o["stats"].items():
@@ -371,7 +421,7 @@ def run(ctx):
             for lab in sorted(bylabel):
                 fine.append((lab, [cs[0]] + bylabel[lab]))
         ctx.sample("(c) %s: %d settings of the ignored input, reference %s" % (fine[0][0], len(fine[0][1]) - 1, brief(fine[0][1][0])))
-        for o in pool.imap(eval_groups, T.chunks(fine, 40)):
+        for o in pool.imap(eval_groups, [(ch, q % 4 == 0) for q, ch in enumerate(T.strided_chunks(fine, 40))]):
             tot["cases_c"] += o["n"]
             absorb(o, "c")
     ctx.evals(tot["evals"])
@@ -379,15 +429,19 @@ def run(ctx):
     print("[C09] (a) %d pairs, (b) %d pairs, (c) %d comparisons; %d model evaluations; rejected by the constructor %d (%.1f%%), skipped (massless Higgs state) %d"
           % (tot["pairs_a"], tot["pairs_b"], tot["cases_c"], tot["evals"], tot["thrown"], 100.0 * tot["thrown"] / max(1, npairs), tot["massless"]))
     print("[C09] worst |diff|/tolerance on passing pairs: %s" % {k: float("%.3g" % v) for k, v in sorted(stats.items())})
+    ctx.note("min_SM_input_sets_per_harness_process", min_sm[0])
+    if min_sm[0] < 2:
+        ctx.cap("a harness process of (a)/(b) saw only one SM input set")
     if tot["thrown"] > 0.5 * npairs:
         ctx.cap("more than half of the pairs rejected by the constructor")
     ctx.assumptions += [
         "tolerance 1e-10 x sum of |terms|: a_mu terms = the library's own h, H, A, H+, SM pieces (1L, 2L-F) and EWadd, nonYuk, Yuk (2L-B); Yukawa entries: |sba| M/v, |cba| rho/sqrt2, rho terms from the inputs",
+        "the SM input set (default / complete alternate set: MW, MZ, alpha_em, alpha_s, fermion masses, m_hSM) is a context dimension; every harness process evaluates both sets interleaved, every 4th process is repeated in reversed order and compared bitwise",
         "(c) compares the hex-float text of spectrum, a_mu and the twelve Yukawa matrices (bitwise, sign of zero included)"]
     return ctx.finish(
-        "(a) contexts = all assignments with <= %d deviating dimensions from 3 mass-basis + 2 gauge-basis base points (Higgs sector, CKM, Delta_f) x type I/II/X/Y x running on/off; "
+        "(a) contexts = all assignments with <= %d deviating dimensions from 3 mass-basis + 2 gauge-basis base points (Higgs sector, CKM, SM input set, Delta_f) x type I/II/X/Y x running on/off; "
         "(b) the same with zeta_f, Delta_f as extra dimensions (<= %d), running off, + full product zeta^3 x tan(beta) x CKM; "
-        "(c) per type and base point every ignored input over its alphabet (<= %d simultaneously); distinct = (part, basis, type, running, CKM, tan(beta) class, sign sba, zeta signs)" % (da, db, dc),
+        "(c) per type and base point every ignored input over its alphabet (<= %d simultaneously); distinct = (part, basis, type, running, CKM, SM input set, tan(beta) class, sign sba, zeta signs)" % (da, db, dc),
         {"pairs_a": tot["pairs_a"], "pairs_b": tot["pairs_b"], "comparisons_c": tot["cases_c"], "rejected_by_constructor": tot["thrown"],
          "skipped_massless_state": tot["massless"],
          "worst_diff_over_tol": {k: float("%.3g" % v) for k, v in sorted(stats.items())}})
@@ -398,12 +452,13 @@ def replay(ctx, path):
     d = json.load(open(path))
     kind, cA, cB = d["data"]["kind"], d["data"]["A"], d["data"]["B"]
     if kind == "c":
-        o = eval_groups([(d["key"].split(":", 1)[1].rsplit(":", 1)[0], [cA, cB])])
+        o = eval_groups(([(d["key"].split(":", 1)[1].rsplit(":", 1)[0], [cA, cB])], False))
+    elif kind == "h":
+        cases = [cB, cA]
+        bad = T.history_mismatches(cases, "SATY", T.run_cases(cases, "SATY"))
+        o = {"fails": [("history-dependence", what, None) for i, what in bad]}
     else:
-        sm = T.sm_inputs(1)
-        for k in (0, 1, 2):
-            sm["ckm%d" % k] = T.sm_inputs(k)["ckm"]
-        o = eval_pairs(([(kind, cA, cB)], sm))
+        o = eval_pairs(([(kind, cA, cB)], False, None))
     for key, what, _ in o["fails"]:
         print("replay: [%s] %s" % (key, what))
     if o["fails"]:
